@@ -46,6 +46,7 @@ def configs(tier, seed):
         out.append(dict(name="homo nt=%d sizes=%s" % (nt, sizes), h="homo", nt=nt, sizes=list(sizes)))
     out.append(dict(name="scorer nt=3 sizes=(1,2)", h="scorer", nt=3, sizes=[1, 2]))
     out.append(dict(name="scorer nt=4 sizes=(2,1,3)", h="scorer", nt=4, sizes=[2, 1, 3]))
+    out.append(dict(name="scorer nt=3 sizes=(2,1,2), candidates conditioned on a batch plate", h="scorer", nt=3, sizes=[2, 1, 2], views="conditioned"))
     # predicted means that are exactly zero
     out.append(dict(name="homo nt=3 sizes=(1,2) exact-zero means", h="homo", nt=3, sizes=[1, 2], zero_means=True))
     out.append(dict(name="hetero nt=3 sizes=(1,2) exact-zero means", h="hetero", nt=3, sizes=[1, 2], order="id", zero_means=True))
@@ -281,37 +282,64 @@ def h_homo(ctx, cfg):
     return len(sizes)
 
 
-class _Plate:
-    def __init__(self, np, total, start, size):
-        sel = [start <= i < start + size for i in range(total)]
-        self.selection_vector = np.array(sel, dtype=bool)
-        self.size = size
-        self.start = start
+def _theta_class(core):
+    class _Theta(core.Theta):
+        """a posterior sample that predicts given per-row means / variances of the screen (the whole Theta interface)"""
+
+        def __init__(self, np, means_row, var_row):
+            self.np, self.m, self.v = np, means_row, var_row
+
+        def predict_conditional_mean(self, data):
+            return self.np.array(self.m, dtype=float)[data.selection_vector]
+
+        def predict_conditional_variance(self, data):
+            return self.np.array(self.v, dtype=float)[data.selection_vector]
+
+        def predict_viability(self, data):
+            return self.predict_conditional_mean(data)
+
+        def private_parameters_dict(self):
+            return {"m": self.np.array(self.m, dtype=float), "v": self.np.array(self.v, dtype=float)}
+
+        def shared_parameters_dict(self):
+            return {}
+
+        @classmethod
+        def from_dicts(cls, private_params, shared_params):
+            raise NotImplementedError
+    return _Theta
 
 
-class _Theta:
-    def __init__(self, np, means_row, var_row):
-        self.np, self.m, self.v = np, means_row, var_row
-
-    def predict_conditional_mean(self, plate):
-        return self.np.array(self.m, dtype=float)[plate.selection_vector]
-
-    def predict_conditional_variance(self, plate):
-        return self.np.array(self.v, dtype=float)[plate.selection_vector]
+def _views(ctx, sizes):
+    """real plate views of a real screen: plate p holds sizes[p] consecutive rows; the plate names sort in an order of their
+    own, so plate ids are not row order.  Returns (screen, plate names, [view of plate p])"""
+    from .common import concrete_screen
+    names = ["pl_%s" % "dbaecf"[p] for p in range(len(sizes))]
+    rows = []
+    for p, sz in enumerate(sizes):
+        for e in range(sz):
+            rows.append(("s%d" % (p % 2), "a", float(len(rows) + 1), "b", 1.0, names[p]))
+    screen = concrete_screen(ctx, rows)
+    pid = dict(zip(screen.plate_mapping[0].tolist(), [int(x) for x in screen.plate_mapping[1].tolist()]))
+    return screen, names, [screen.get_plate(pid[names[p]]) for p in range(len(sizes))]
 
 
 def h_scorer(ctx, cfg):
+    """the scorer entry point on real views of a real screen: whole plates keyed by their plate ids, or (views="conditioned")
+    every candidate plate combined with the last plate, keyed by the candidate's id - what score_chunk hands the scorer while
+    a batch is assembled"""
     np = ctx.np
     gd = ctx.mod("batchie.scoring.gaussian_dbal")
     core = ctx.mod("batchie.core")
     dc = ctx.mod("batchie.distance_calculation")
     nt, sizes = cfg["nt"], cfg["sizes"]
     means, vars_, dist = _inputs(ctx, nt, sizes, cfg)
-    total = sum(sizes)
+    screen, names, view = _views(ctx, sizes)
+    Theta = _theta_class(core)
     holder = core.ThetaHolder(n_thetas=nt)
     for t in range(nt):
-        holder.add_theta(_Theta(np, [x for p in range(len(sizes)) for x in means[p][t]],
-                                [x for p in range(len(sizes)) for x in vars_[p][t]]))
+        holder.add_theta(Theta(np, [x for p in range(len(sizes)) for x in means[p][t]],
+                               [x for p in range(len(sizes)) for x in vars_[p][t]]))
     dm = dc.ChunkedDistanceMatrix(nt)
     # the pairs are stored in row order, in reverse, or rotated (chunks of a distance matrix may be combined in any order)
     pairs = [(i, j) for i in range(nt) for j in range(i)]
@@ -319,26 +347,31 @@ def h_scorer(ctx, cfg):
     pairs = pairs if fill == 0 else pairs[::-1] if fill == 1 else pairs[len(pairs) // 2:] + pairs[:len(pairs) // 2]
     for i, j in pairs:
         dm.add_value(i, j, dist[i][j])
-    plates, start = {}, 0
-    ids = [7, 3, 11, 5, 2][:len(sizes)]
-    for pid, sz in zip(ids, sizes):
-        plates[pid] = _Plate(np, total, start, sz)
-        start += sz
-    max_chunk = int(ctx.int("max_chunk", 1, len(sizes) + 1))
+    pid = {names[p]: int(view[p].plate_id) for p in range(len(sizes))}
+    if cfg.get("views") == "conditioned":
+        last = len(sizes) - 1
+        entries = [(pid[names[p]], view[p].combine(view[last]), [p, last]) for p in range(last)]
+    else:
+        entries = [(pid[names[p]], view[p], [p]) for p in range(len(sizes))]
+    max_chunk = int(ctx.int("max_chunk", 1, len(entries) + 1))
     which = int(ctx.int("which", 0, 1))
-    keys = list(plates) if which == 0 else list(plates)[::-1]
-    ordered = {k: plates[k] for k in keys}
+    if which == 1:
+        entries = entries[::-1]
+    ordered = {k: v for k, v, _ in entries}
+    e_means = [[[x for p in parts for x in means[p][t]] for t in range(nt)] for _, _, parts in entries]
+    e_vars = [[[x for p in parts for x in vars_[p][t]] for t in range(nt)] for _, _, parts in entries]
     scorer = gd.GaussianDBALScorer(max_chunk=max_chunk, max_triples=_budget(cfg, nt))
-    by_key = {pid: p for p, pid in enumerate(ids)}
     res = _checked(ctx, np, gd, lambda: scorer.score(plates=ordered, distance_matrix=dm, samples=holder,
                                                        rng=_FixedRng("id"), progress_bar=False),
-                   [means[by_key[k]] for k in keys], [vars_[by_key[k]] for k in keys], dist, "id", nt)
+                   e_means, e_vars, dist, "id", nt)
     ctx.observe("scores", [res[k] for k in sorted(res)])
-    ctx.prove(sorted(res.keys()) == sorted(ids), "scorer returns exactly the plate ids it was given")
+    ctx.prove(sorted(res.keys()) == sorted(k for k, _, _ in entries), "scorer returns exactly the plate ids it was given")
     triples = _triple_order(gd, nt, "id")
-    for p, pid in enumerate(ids):
-        ref = _ref_score(ctx, np, means[p], vars_[p], dist, triples)
-        ctx.prove(ctx.eq(res[pid], ref), "scorer entry point: plate score = direct estimator for every batch size and plate order")
+    for n, (k, _, parts) in enumerate(entries):
+        ref = _ref_score(ctx, np, e_means[n], e_vars[n], dist, triples)
+        ctx.prove(ctx.eq(res[k], ref), "scorer entry point: plate score = direct estimator for every batch size and plate order"
+                  + (" (views conditioned on a batch plate)" if len(parts) > 1 else ""),
+                  key="scorer entry point: score differs from the direct estimator on the view it was given")
     return max_chunk
 
 
